@@ -23,6 +23,7 @@ POL = ["masked", "rule_greedy", "greedy_masked", "rule_random", "mostly_masked",
 class Adapter(EnvAdapter):
     name = "GraphColoring"
     props = ("C01", "C03", "C04", "C05", "C06", "C08", "C09", "C10", "C11", "C12")
+    gen_heavy = {'n5_p50': (60, 400), 'n3_p80': (60, 400)}
 
     def configs(self, tier):
         if tier == "quick":
